@@ -24,7 +24,7 @@ from vlib import core
 from vlib.core import strlit, listlit, zlit, boollit, optlit
 from translate import c14_facts
 
-HEADER = """From SF Require Import Base.Val C14.Writer C14.WriterCheck.
+HEADER = """From SF Require Import Base.Val C14.Writer C14.Views C14.WriterCheck.
 From Gen Require Import C14Facts.
 Open Scope string_scope.
 Definition check := WriterCheck.check gen_cfg.
@@ -97,10 +97,6 @@ def op_coq(o) -> str:
     k = o[0]
     if k == "save":
         return f"(OpSave {strlit(o[1])} {mode_coq(o[2])} {mode_coq(o[3])} {df_coq(o[4])})"
-    if k == "gsave":
-        # `if not catalog.tableExists(n): df.write.saveAsTable(n)`: in model and spec this is, by definition, what
-        # saveAsTable(mode="ignore") does (no-op OK when the table exists, CREATE otherwise)
-        return f"(OpSave {strlit(o[1])} {mode_coq('ignore')} None {df_coq(o[2])})"
     if k == "insert":
         return f"(OpInsert {strlit(o[1])} {boollit(o[2])} {df_coq(o[3])})"
     if k == "wpath":
@@ -122,6 +118,24 @@ def op_coq(o) -> str:
     raise ValueError(o)
 
 
+def xop_coq(o) -> str:
+    """operation of the layer with temporary views / guarded saves / same-named tables in another schema (C14/Views.v)"""
+    k = o[0]
+    if k == "tempview":
+        assert o[2]["bad"] is None
+        return f"(XTempView {strlit(o[1])} {tbl_coq(o[2]['cols'], o[2]['rows'])})"
+    if k == "gsave":
+        return f"(XGuardedSave {strlit(o[1])} {df_coq(o[2])})"
+    if k == "foreign":
+        return f"(XForeign {strlit(o[1])})"
+    return f"(XOp {op_coq(o)})"
+
+
+def xcase_coq(ops, obs, snaps) -> str:
+    return (f"(mkXCase {listlit([xop_coq(o) for o in ops])} {listlit([obs_coq(x) for x in obs])} "
+            f"{listlit([snap_coq(s) for s in snaps])})")
+
+
 def op_str(o) -> str:
     k = o[0]
 
@@ -135,6 +149,10 @@ def op_str(o) -> str:
         return f"{w(o[3])}.saveAsTable({o[1]!r}{'' if o[2] is None else ', mode=' + repr(o[2])})  df={fr(o[4])}"
     if k == "gsave":
         return f"if not catalog.tableExists({o[1]!r}): df.write.saveAsTable({o[1]!r})  df={fr(o[2])}"
+    if k == "tempview":
+        return f"df.createOrReplaceTempView({o[1]!r})  df={fr(o[2])}"
+    if k == "foreign":
+        return f"conn.execute('CREATE SCHEMA IF NOT EXISTS staging; CREATE OR REPLACE TABLE staging.{o[1]} ...')  rows={fr(o[2])}"
     if k == "insert":
         return f"df.write{'.byName' if o[2] else ''}.insertInto({o[1]!r})  df={fr(o[3])}"
     if k == "wpath":
@@ -289,6 +307,18 @@ class Impl:
                 except Exception as ex:  # noqa: BLE001 -- the outcome class is the observation
                     self.exc.append(f"{type(ex).__name__}: {str(ex)[:160]}")
                     return ["err", classify_write_error(ex)]
+            if k == "tempview":
+                self.df(o[2]).createOrReplaceTempView(o[1])
+                return ["ok"]
+            if k == "foreign":
+                # a table of the same NAME in another schema, made behind the session's back
+                fr = o[2]
+                ddl = ", ".join(f'"{n}" {TY_SQL[t].replace("string", "varchar")}' for n, t in fr["cols"])
+                self.conn.execute("CREATE SCHEMA IF NOT EXISTS staging")
+                self.conn.execute(f'CREATE OR REPLACE TABLE staging."{o[1]}" ({ddl})')
+                for r in fr["rows"]:
+                    self.conn.execute(f'INSERT INTO staging."{o[1]}" VALUES ({", ".join("?" for _ in r)})', list(r))
+                return ["ok"]
             if k == "rtable":
                 try:
                     return self.read_obs(self.s.table(o[1]))
@@ -576,7 +606,50 @@ def catalog_histories(tier):
                     h += [["save", "t", recreate, None, FR_C]]
                 h += [["exists", "t"], ["exists", "t", "upper"], ["list"], ["cols", "t"], ["get", "t"], ["rtable", "t"],
                       ["drop", "t"], ["drop", "t"], ["exists", "t"], ["exists", "u", "upper"], ["gsave", "u", FR_C], ["rtable", "u"]]
+                # every other life cycle runs next to a table of the same name in another schema (other / same columns),
+                # created before the table, and replaced once after the drop
+                if len(out) % 2 == 0:
+                    other = FR_FOREIGN if len(out) % 4 == 0 else FR_AS2
+                    k = h.index(["drop", "t"])
+                    h = [["foreign", "t", other]] + h[:k + 1] + [["foreign", "t", FR_FOREIGN]] + h[k + 1:]
                 out.append(h)
+    return out
+
+
+FR_FOREIGN = frame([("x", "int"), ("y", "str"), ("z", "bool")], [[100, "other", True], [None, None, None]])
+FR_V = frame([("v", "int"), ("a", "int")], [[5, 6]])
+
+
+def namesake_histories(tier):
+    """objects that share the table's NAME without being the table: a session temporary view (legitimately shadows
+    session.table and shows in the catalog API, must not influence any write) and a table in another schema (must
+    influence nothing).  Every mode x (argument | .mode()) x (table exists | not) with a temp view of that name; the
+    guarded re-create; inserts positional and byName; the same next to staging.<name>; both together."""
+    out = []
+    plain = [["exists", "t"], ["exists", "t", "upper"], ["list"], ["cols", "t"], ["get", "t"], ["rtable", "t"]]
+    for m in MODES:
+        for how in ("arg", "self"):
+            a, s_ = (m, None) if how == "arg" else (None, m)
+            for pre in (False, True):
+                h = ([["save", "t", None, None, FR_AS]] if pre else []) + [["tempview", "t", FR_V]]
+                h += [["save", "t", a, s_, FR_AS2]] + plain
+                h += [["gsave", "t", FR_AS], ["drop", "t"], ["exists", "t"], ["gsave", "t", FR_AS], ["rtable", "t"], ["drop", "t"],
+                      ["exists", "t"], ["list"]]
+                out.append(h)
+                if how == "arg" or tier == "thorough":
+                    g = [["foreign", "t", FR_FOREIGN if pre else FR_AS2]] + ([["save", "t", None, None, FR_AS]] if pre else [])
+                    g += [["save", "t", a, s_, FR_AS2], ["rtable", "t"]] + catalog_queries("t")[:1] + [["cols", "t"], ["cols", "t", "upper"]]
+                    g += [["insert", "t", True, frame([("s", "str"), ("a", "int")], [["w", 8]])], ["rtable", "t"], ["list"],
+                          ["drop", "t"], ["exists", "t"], ["cols", "t"], ["get", "t"], ["gsave", "t", FR_C], ["rtable", "t"]]
+                    out.append(g)
+    # the view registered first / last, the guard alone, and everything together
+    out.append([["tempview", "t", FR_V], ["gsave", "t", FR_AS], ["exists", "t"], ["list"], ["rtable", "t"]])
+    out.append([["tempview", "t", FR_V], ["exists", "t"], ["list"], ["get", "t"], ["cols", "t"], ["rtable", "t"], ["drop", "t"]])
+    out.append([["foreign", "t", FR_AS2], ["exists", "t"], ["list"], ["get", "t"], ["cols", "t"], ["rtable", "t"],
+                ["insert", "t", False, FR_AS2], ["gsave", "t", FR_AS], ["rtable", "t"], ["cols", "t"]])
+    out.append([["foreign", "t", FR_FOREIGN], ["save", "t", None, None, FR_AS], ["tempview", "u", FR_V], ["foreign", "u", FR_AS],
+                ["save", "u", "ignore", None, FR_AB], ["rtable", "t"], ["rtable", "u"], ["list"], ["cols", "t"], ["cols", "u"],
+                ["insert", "t", True, frame([("s", "str"), ("a", "int")], [["w", 8]])], ["rtable", "t"]])
     return out
 
 
@@ -587,6 +660,7 @@ def random_history(rnd, max_writes=5):
     ops = []
     # current believed columns per table, to make type-compatible inserts likely
     cur: dict[str, list] = {}
+    viewed: set = set()
     writes = 0
     while writes < nwrites:
         x = rnd.random()
@@ -642,15 +716,24 @@ def random_history(rnd, max_writes=5):
                 ops.append(["rtable", n])                      # dropped after the session has read it
             ops.append(["drop", n])
             cur.pop(n, None)
-            ops += rnd.sample(catalog_queries(n), 3)
+            ops += rnd.sample([q for q in catalog_queries(n) if n not in viewed or len(q) < 3 and q != ["list", "db"] and q != ["list", "full"]], 3)
             if rnd.random() < 0.5:
                 fr = gen_frame(rnd)
                 ops.append(["gsave", n, fr])
                 cur[n] = list(fr["cols"])
                 writes += 1
-        else:
+        elif x < 0.975:
             n = rnd.choice(tables + ["nope"])
-            ops.append(rnd.choice(catalog_queries(n)))
+            qs = catalog_queries(n)
+            if n in viewed:        # qualified spellings of a name that is (also) a temporary view: not asked
+                qs = [q for q in qs if (q[0] == "list" and len(q) == 1) or (q[0] != "list" and (len(q) < 3 or q[2] in ("plain", "upper")))]
+            ops.append(rnd.choice(qs))
+        elif x < 0.99:
+            ops.append(["foreign", rnd.choice(tables), gen_frame(rnd, nrows=2)])
+        else:
+            n = rnd.choice(tables)
+            ops.append(["tempview", n, gen_frame(rnd)])
+            viewed.add(n)
     # observe everything at the end
     for n in tables:
         ops.append(["rtable", n])
@@ -781,6 +864,7 @@ def make_histories(ctx):
     rnd = random.Random(ctx.seed)
     hs = [("corpus", h) for h in corpus()]
     hs += [("catalog", h) for h in catalog_histories(ctx.tier)]
+    hs += [("namesake", h) for h in namesake_histories(ctx.tier)]
     hs += [("pairs", h) for h in mode_pair_histories(ctx.tier)]
     hs += [("fault", h) for h in fault_histories(rnd, ctx.tier)]
     n_rand = 90 if ctx.tier == "quick" else 2500
@@ -840,7 +924,7 @@ def run(ctx: core.Ctx):
         ctx.broken("T1:c14_facts", f"{type(ex).__name__}: {ex}")
         t1_ok = False
     # ---- proofs
-    deps = ["Base/Val.v", "C14/Writer.v", "C14/WriterProof.v", "C14/WriterCheck.v"]
+    deps = ["Base/Val.v", "C14/Writer.v", "C14/WriterProof.v", "C14/Views.v", "C14/WriterCheck.v"]
     proved = False
     if t1_ok:
         proved = ctx.prove([ctx.build + "/gen/C14Facts.v", core.COQ + "/props/C14.v"], dep_theories=deps)
@@ -925,7 +1009,7 @@ def run(ctx: core.Ctx):
             obs, snaps, exc, notes = done[idx]
             runs.append({"src": src, "ops": ops, "obs": obs, "snaps": snaps, "exc": exc, "notes": notes})
             kinds_hist(ops, hist_kind)
-            nw = sum(1 for o in ops if o[0] in ("save", "insert", "wpath", "gsave"))
+            nw = sum(1 for o in ops if o[0] in ("save", "insert", "wpath", "gsave", "tempview"))
             hist_len[nw] = hist_len.get(nw, 0) + 1
             hist_src[src] = hist_src.get(src, 0) + 1
             for o in ops:
@@ -938,7 +1022,7 @@ def run(ctx: core.Ctx):
     finally:
         shutil.rmtree(scratch, ignore_errors=True)
     ctx.log(f"{len(runs)} histories, {sum(len(r['ops']) for r in runs)} steps run on DuckDBSession in {time.time() - t0:.1f}s")
-    items = [case_coq(r["ops"], r["obs"], r["snaps"]) for r in runs]
+    items = [xcase_coq(r["ops"], r["obs"], r["snaps"]) for r in runs]
     res = ctx.cases("c14", HEADER, items, per_file=40, result_ty="str", fn="check")
     # ---- decide
     dev_best: dict[str, dict] = {}
@@ -997,9 +1081,9 @@ def run(ctx: core.Ctx):
                                    "TEMPORARY VIEWs that df.schema created must not appear"})
         dev_count[SIG_TEMPVIEWS] = len(noted)
     for sig, cand in sorted(dev_best.items()):
-        term = listlit([op_coq(o) for o in cand["ops"]])
-        spec_says = ctx.coq_eval(HEADER, f"snd (s_run s_init {term})")
-        model_says = ctx.coq_eval(HEADER, f"snd (m_run gen_cfg duckdb_residue m_init {term})")
+        term = listlit([xop_coq(o) for o in cand["ops"]])
+        spec_says = ctx.coq_eval(HEADER, f"snd (x_s_run (s_init, []) {term})")
+        model_says = ctx.coq_eval(HEADER, f"snd (x_m_run gen_cfg duckdb_residue (m_init, []) {term})")
         ctx.deviation(sig, f"{op_str(cand['ops'][-1])}: implementation and spec part on the last step "
                            f"({dev_count[sig]} histories of this run with this shape)",
                       {"history": [op_str(o) for o in cand["ops"]], "ops_json": cand["ops"],
